@@ -71,6 +71,18 @@ CLAIMED = {
                 "libstdc++'s (app=1, ate=2, binary=4, in=8, out=16, trunc=32), read back from clang's constant evaluation.",
         "design": "4/C14",
     },
+    "C16": {
+        "rules": "R-ENUMBITS, R-LAYOUT, R-NOPAD, R-SIB, R-WRITESET, R-ATOMIC, R-MUSTCALL",
+        "text": "Static checks on the packed tile record and its accessors: every CellType enumerator is representable "
+                "in the 5-bit field as the compiler reads it back (type-level fact from the AST, true for all 32 values at "
+                "once), the Tile/TileMapping bit layout and CellType values match the format description, getter and "
+                "setter use one member path through the same GetTileIndex(x, y), each setter writes one element of "
+                "`tiles` only and refuses out-of-range values before storing, tileset/image indices come from the "
+                "mapping entry the tile refers to, the 32-column block index expression has the documented shape, and "
+                "the reported dimensions have a single writer fed from the header.",
+        "note": "Declined: bijectivity of the index formula and exact coverage of the tile array (arithmetic over all x, y, H).",
+        "design": "4/C16",
+    },
     "C17": {
         "rules": "R-SIB, R-WHOCALLS, R-MUSTCALL, R-GUARD, R-ORDER (guard facts at each return)",
         "text": "Static analysis of name lookup and resource resolution: membership and index lookup scan the same range "
